@@ -14,8 +14,8 @@ CONSTANTS
   SetMaxSet = {1}
   AdvSet = {}
   Budget = 2
-  Ops = {"insert", "wait", "clear", "close"}
+  Ops = {"insert", "wait", "clear", "close", "drop"}
   TickOn = FALSE
   MaxNow = 0
-PROPERTIES EveryCallReturns WorkersStop
+PROPERTIES EveryCallReturns WorkersStop WorkersStopAfterDrop
 CHECK_DEADLOCK FALSE
